@@ -182,6 +182,7 @@ def cases(tier):
 
 def check_msm_value(res, facts, tier):
     rule = res.rule("R-MSM.value", "msm_bigint / msm_bigint_wnaf return sum k_i P_i: all 5-bit scalars and all 1024 pairs with window 3, 33 bases with window 6, two-limb scalars [evaluation in the exponent domain: bases symbols, scalars concrete]", 0)
+    proved = set()
     for name in ("msm_bigint", "msm_bigint_wnaf"):
         fns = [f for f in facts.fns(unit="ws", crate="ark_ec") if f.name == name and f.kind != "Closure" and not f.default_of and not f.impl]
         key = "ark_ec|%s|value" % name
@@ -207,7 +208,9 @@ def check_msm_value(res, facts, tier):
             n += 1
         if verdict is None:
             rule.ok(key, "%d scalar vectors: result = sum k_i P_i" % n, fn.loc)
+            proved.add(name)
         elif verdict[0] == "bad":
             rule.bad(key, verdict[1], fn.loc)
         else:
             rule.noverdict(key, "shape not modelled (%s)" % verdict[1], fn.loc)
+    return proved
